@@ -419,3 +419,35 @@ def exc_code(e: BaseException) -> int:
     if tag is not None:
         return 100 + tag
     return 99
+
+
+# --------------------------------------------------------------------------
+# guarded calls into the implementation
+
+
+class Hang(Exception):
+    pass
+
+
+def _alarm(signum, frame):
+    raise Hang("call into the implementation did not return within its time limit")
+
+
+def guarded(f, *args, limit: float = 5.0, **kw):
+    """f(*args) under a wall-clock limit (main thread only); raises Hang"""
+    import signal
+
+    old = signal.signal(signal.SIGALRM, _alarm)
+    signal.setitimer(signal.ITIMER_REAL, limit)
+    try:
+        return f(*args, **kw)
+    finally:
+        signal.setitimer(signal.ITIMER_REAL, 0)
+        signal.signal(signal.SIGALRM, old)
+
+
+def supported(md) -> bool:
+    """the configuration keeps the fallback rules that guarantee progress (C01 'supported')"""
+    a = md.get_active_rules()
+    return ("paragraph" in a["block"] and "text" in a["inline"]
+            and all(x in a["core"] for x in ("normalize", "block", "inline", "text_join")))
